@@ -16,4 +16,5 @@ import (
 	_ "verif/htlab/internal/props/c13"
 	_ "verif/htlab/internal/props/c17"
 	_ "verif/htlab/internal/props/c19"
+	_ "verif/htlab/internal/props/c20"
 )
